@@ -9,6 +9,9 @@ From E57 Require Import Base.Prelude Base.Floats Spec.PageSpec Model.PagedWriter
   Model.PcWriter Model.Meta Model.MetaFile Model.WriterApi.
 From E57 Require Import Proofs.PagedWriterProofs Proofs.WapiProg Proofs.WapiPc Proofs.WapiRules Proofs.WapiInv
   Proofs.WapiMain.
+From E57 Require Import Model.Device Model.PagedReader Model.FileBin Model.ReaderOpen Model.XmlTree Model.XmlGen
+  Spec.XgWriterOk Spec.XeMetaOk Model.WriterFull Proofs.C04Compose
+  Proofs.WapiFullProg Proofs.WapiFullMeta Proofs.WapiFullInv Proofs.WapiFull.
 
 (** Every call sequence - any argument values, any order Rust compiles,
     abandoned sub-writers, repeated finalize of every writer, calls after
@@ -73,3 +76,56 @@ Theorem C10_finalize_terminates : forall ps l, pc_inv ps l -> ls_ok l -> ps_fina
              w_buffer w1 = [].
 Proof. exact finalize_terminates. Qed.
 Print Assumptions C10_finalize_terminates.
+
+(** The third clause of the property, composed over all layers.  For every complete
+    program - [new], then any sequence of setters, [register_extension], [add_blob],
+    point cloud sessions ([add_pointcloud], setters / [add_point], [finalize], end of
+    borrow) and image sessions, then [finalize] - run by the whole writer model
+    ([writer_run]: the API state machine with the XML generator of Model/XmlGen.v) on
+    the empty device, in which every call returned Ok: the flushed file consists of
+    sealed pages, the reader model opens it, its XML text parses and extracts
+    ([read_meta]: XmlParse + XmlExtract) to exactly the descriptors the state machine
+    holds ([reader_view], float texts filled in, NaNs canonical) - every point cloud
+    with guid, metadata, prototype, record count, bounds, limits, every image with its
+    representations and blob descriptors, extensions, root fields -, and every binary
+    item is read back exactly through the descriptor it was published with
+    ([explains] ties items, published offsets and descriptors together; [reads_back]:
+    raw iterator model for point clouds, [blob_read] for blobs and image payloads).
+
+    Hypotheses.  [units]: the grammar above (no abandoned sub-writer, nothing between a
+    sub-writer's finalize and the end of its borrow).  [call_ok]: arguments are values of
+    their Rust types, strings consist of characters XML can carry (no CR), limits given by
+    the caller are i64 values.  Float oracle: Display gives plain text that FromStr maps
+    back to the bit pattern (NaN: canonical).  [version_ok]: the version text is such a
+    string.  [pc_limits_complete]: limits are complete or absent (incomplete ones are
+    silently not written: known finding).  [pc_u64] / [im_ok]: the published offsets,
+    lengths and counts are u64 and the image dimensions u32 values, as their Rust types
+    say (the model's N is unbounded); fewer than 65535 extensions; the XML fits the
+    reader's limit [MAX_XML_SIZE]; the file is shorter than 2^64 bytes. *)
+Theorem C10_accepted_reads_back :
+  forall (fmt64 fmt32 : N -> xstring) (pf64 pf32 : xstr -> option N) (fdiv : N -> Z -> N) (version : xstring),
+  (forall b, plain_text (fmt64 b) = true) -> (forall b, plain_text (fmt32 b) = true) ->
+  (forall b, pf64 (fmt64 b) = Some (canon64 b)) -> (forall b, pf32 (fmt32 b) = Some (canon32 b)) ->
+  string_ok (lib_version_text version) = true ->
+  forall guid tops s st rs,
+  units tops ->
+  Forall call_ok (NewWriter guid :: tops ++ [Finalize]) ->
+  wrun (writer_run fmt64 fmt32 version (NewWriter guid :: tops ++ [Finalize])) pw0 = (s, Ok (st, rs)) ->
+  Forall res_ok rs ->
+  forallb pc_limits_complete (ws_pcs st) = true ->
+  forallb pc_u64 (ws_pcs st) = true -> forallb im_ok (ws_imgs st) = true ->
+  len (ws_exts st) < 65535 ->
+  (forall xml, gen_root (fill_meta fmt64 fmt32 (ws_meta st)) = Ok xml -> len xml <= MAX_XML_SIZE) ->
+  len (d_bytes (pw_dev (fst (pw_flush s)))) < 2 ^ 64 ->
+  exists is os xml bl,
+    explains tops is os (ws_pcs st) (ws_imgs st) bl /\
+    gen_root (fill_meta fmt64 fmt32 (ws_meta st)) = Ok xml /\
+    snd (pw_flush s) = Ok tt /\
+    let f := d_bytes (pw_dev (fst (pw_flush s))) in
+    Spec.PageSpec.all_pages_valid f = true /\
+    exists rs0 h d',
+      reader_open (dev_init f None) = (d', Ok (rs0, h, xml)) /\
+      read_meta pf64 pf32 fdiv xml = Ok (reader_view (fill_meta fmt64 fmt32 (ws_meta st))) /\
+      Forall2 (reads_back rs0) is os.
+Proof. exact accepted_reads_back. Qed.
+Print Assumptions C10_accepted_reads_back.
